@@ -104,7 +104,7 @@ func runC09(c c09Case) vh.Result {
 	var res vh.Result
 	total := 0 // stanzas the peer has sent on the stream-managed session so far (wire truth)
 	obsc := make(chan c09Obs, 8)
-	script := &peer.Script{Mechs: []string{"PLAIN"}, OfferSM: true, SMId: "sm-c09", SMResume: c.SMResume}
+	script := &peer.Script{Mechs: []string{"PLAIN"}, OfferSM: true, ExpectEnable: true, SMId: "sm-c09", SMResume: c.SMResume}
 	afterNonStanza := false
 	srv, err := peer.Listen(func(pc *peer.Conn) {
 		var o c09Obs
